@@ -106,6 +106,8 @@ var zzFormatTemplates = []string{
 	9:  "2021-01-01 open A\x01",
 	10: "2021-01-01 \"line1\x03line2\"\nA B 1 C\nC D 2 E\x01\n// c\n",
 	11: "\x032021-01-01 open A\n",
+	12: "# only comments\x03\n\n* heading\n// 2021-01-01 open A\n", // a parseable file without any directive
+	13: "\x03",
 }
 
 func zzFill(t string, k int) string {
